@@ -367,7 +367,7 @@ theorem apoll_read {id mc cap : Nat} {R : List Rec} (hc : R2Ctx id mc cap R) {r 
 /-- the rest of a poll whose handler part ended in the write phase -/
 theorem aout_finish {g : Cfg} {rd : ARead} {wr : Bool} (ok : AOK g rd wr) {c : Conn} {r0 r' : AReq}
     {h0 : HState} {e2 : Run.Env} {O1 G dO : Bytes} (hph : c.phase = .handler r0 h0)
-    (hw : WOutG g.p.id g.data g.st (g.L1 ++ O1) r' e2 (handlerPoll (handlerFuel c.env r0) r0 h0 c.env))
+    (hw : WOutG g.p.id g.data g.st (g.L1 ++ O1) r' e2 (handlerPoll ((handlerFuel c.env r0 + scriptOf c)) r0 h0 c.env))
     (hts0 : TStep c.env.tr e2.tr) (hsg : e2.segs = c.env.segs)
     (hr2 : R2 g.p.id g.mc g.cap g.body r'.sp G e2.tr.input dO)
     (hreq : r'.sp.request = g.p.request) (hmc : r'.sp.maxConns = g.mc)
@@ -375,7 +375,7 @@ theorem aout_finish {g : Cfg} {rd : ARead} {wr : Bool} (ok : AOK g rd wr) {c : C
     (hb : Ben c.env.tr) (hstop : c.stop = false) (hev : Ev1 g c.env.tr) (hsc : c.scripts = g.more) :
     GRes3 (SA g) (AA g) (FA g) 3 c := by
   have hstep := C07.handler_step c r0 h0 hph
-  rcases hhp : handlerPoll (handlerFuel c.env r0) r0 h0 c.env with ⟨r2, h2, e3, res⟩
+  rcases hhp : handlerPoll ((handlerFuel c.env r0 + scriptOf c)) r0 h0 c.env with ⟨r2, h2, e3, res⟩
   rw [hhp] at hstep hw
   obtain ⟨hr2', q1, q2, q3, q4⟩ := hw
   simp only at hr2' q1 q2 q3 q4
@@ -488,8 +488,8 @@ theorem afirst {g : Cfg} {rd : ARead} {wr : Bool} (ok : AOK g rd wr) (c : Conn) 
   have hwr0 : (AReq.new (Str.Parser.fromParser g.cap g.p.request e1 g.mc)).writeable = true := by
     simp [AReq.new, Str.Parser.fromParser, hrole, inputStreams]
   have hr20 := r2_auth_start ok hlen hwire
-  obtain ⟨f, hf⟩ : ∃ f, handlerFuel c.env (AReq.new (Str.Parser.fromParser g.cap g.p.request e1 g.mc)) = f + 1 :=
-    ⟨handlerFuel c.env (AReq.new (Str.Parser.fromParser g.cap g.p.request e1 g.mc)) - 1, by
+  obtain ⟨f, hf⟩ : ∃ f, (handlerFuel c.env (AReq.new (Str.Parser.fromParser g.cap g.p.request e1 g.mc)) + scriptOf c) = f + 1 :=
+    ⟨(handlerFuel c.env (AReq.new (Str.Parser.fromParser g.cap g.p.request e1 g.mc)) + scriptOf c) - 1, by
       have := handlerFuel_ge c.env (AReq.new (Str.Parser.fromParser g.cap g.p.request e1 g.mc)); omega⟩
   have hfge := handlerFuel_ge c.env (AReq.new (Str.Parser.fromParser g.cap g.p.request e1 g.mc))
   have hfu := ok.hfu
